@@ -381,6 +381,10 @@ func runC07(c *hx.Ctx) {
 			res.Notes = append(res.Notes, "cannot read replay: "+err.Error())
 			return
 		}
+		if len(rp.Replay.Case.Ops) == 0 {
+			soak(c) // a replay of a concurrent failure: run the soak again with this seed
+			return
+		}
 		r := runCase(rp.Replay.Case)
 		for _, f := range r.fails {
 			res.Fail(f.kind, f.detail, map[string]any{"case": r.spec, "trace": r.coq})
